@@ -905,12 +905,10 @@ def r11j(ctx: Context) -> None:
     documented: List[str] = []
     import re as _re
 
-    flat = " ".join(doc.split())
-    match = _re.search(r"ending with the character sequence ((?:`[^`]+`(?: or |, )?)+)", flat)
-    if match:
-        documented = _re.findall(r"`([^`]+)`", match.group(1))
+    # every comment-closing sequence the page shows in code spans (whatever the wording around them)
+    documented = sorted(set(_re.findall(r"`(-{2,}>)`", doc)))
     if not documented:
-        raise AnalysisError("pragmas.md: the sentence naming the closing sequences was not found")
+        raise AnalysisError("pragmas.md: no closing sequence of a pragma comment is shown")
     handled = {literal for _node, literal, _text in cuts if literal} | {
         sub.value for node in walk_local(compiler.node) if isinstance(node, ast.Call) and isinstance(node.func, ast.Attribute) and node.func.attr == "endswith"
         for arg in node.args for sub in ast.walk(arg) if isinstance(sub, ast.Constant) and isinstance(sub.value, str)
